@@ -650,6 +650,29 @@ def _json_key(it, v):
 
 R.spec_funcs["json_key"] = _json_key
 
+
+# ------------------------------------------------------------------------------------------------- the remaining nodes: String, $request.body, $response.body
+R.contract("schemathesis.core.transforms:resolve_pointer", args={"document": Opq("Any"), "pointer": Str}, returns=OneOf(Opq("Value"), UNRES_), pure=False, trusted=True,
+           effects={"pointer_asked": "(document, pointer)"}, note="C10 stand-in resolve_pointer_rfc6901 (all pointers up to length 4 / 5)")
+R.contract(ND + "String.evaluate", prop="C10", args={"self": Obj(ND + "String", value=Str), "output": Opq("Out")}, raises=[], ensures={"literal_text_denotes_itself": "result == self.value"})
+BodyOut = Obj("schemathesis.generation.stateful.state_machine:StepOutput", case=Obj("schemathesis.generation.case:Case", body=Opq("Value")),
+              response=Obj("spec:JsonResponse", parsed=Opq("Value")))
+R.nominal_methods["spec:JsonResponse"] = {"json": lambda it, obj, a, k: obj.fields["parsed"]}
+for _node, _doc in (("BodyRequest", "output.case.body"), ("BodyResponse", "output.response.parsed")):
+    R.contract(
+        ND + _node + ".evaluate",
+        prop="C10",
+        args={"self": Obj(ND + _node, pointer=OneOf(NoneT, Str)), "output": BodyOut},
+        requires=["implies(self.pointer is not None, length(self.pointer) >= 1)  # a pointer token always starts with '#' (lexer)"],
+        ghost={"pointer_asked": None},
+        raises=[],
+        ensures={
+            # `$request.body` / `$response.body` without a pointer is the whole document; with `#<pointer>` the value at that JSON pointer IN THAT document (the leading '#' is not part of the pointer)
+            "without_a_pointer_the_whole_document": "implies(self.pointer is None, result is " + _doc + ")",
+            "with_a_pointer_the_value_at_it_in_the_right_document": "implies(self.pointer is not None, ghost('pointer_asked')[0] is " + _doc + " and ghost('pointer_asked')[1] == self.pointer[1:])",
+        },
+    )
+
 LEVEL_TEXT = ("Deductive: structural recursion of evaluate/_evaluate_nested against a denotation (lists of any length by invariant, dicts up to 2 entries), node evaluation, "
               "status matching; the expression lexer/parser and JSON-pointer resolution are covered by exhaustive bounded stand-ins. Level other.")
 LEVEL_NOTE = "Trusted: lexer/parser/resolve_pointer (stand-ins), requests URL preparation, expand_status_code (C04), pyvc semantics (E9)."
